@@ -792,6 +792,14 @@ func (m *Manager) configureTasks(envId uid.ID, tasks Tasks) error {
 		if respError != nil {
 			errText := respError.Error()
 			if len(strings.TrimSpace(errText)) != 0 {
+				// with a single target we get a plain response instead of a multi response,
+				// the failure of a non-critical task still must not fail the transition
+				if len(tasks) == 1 && tasks[0] != nil && !tasks[0].GetTraits().Critical &&
+					(tasks[0].parent == nil || !tasks[0].parent.GetTaskTraits().Critical) {
+					log.WithField("partition", envId.String()).
+						Warnf("CONFIGURE could not complete for non-critical task, error: %s", errText)
+					return nil
+				}
 				return errors.New(response.Err().Error())
 			}
 			// FIXME: improve error handling ↑
@@ -872,6 +880,14 @@ func (m *Manager) transitionTasks(envId uid.ID, tasks Tasks, src string, event s
 		if respError != nil {
 			errText := respError.Error()
 			if len(strings.TrimSpace(errText)) != 0 {
+				// with a single target we get a plain response instead of a multi response,
+				// the failure of a non-critical task still must not fail the transition
+				if len(tasks) == 1 && tasks[0] != nil && !tasks[0].GetTraits().Critical &&
+					(tasks[0].parent == nil || !tasks[0].parent.GetTaskTraits().Critical) {
+					log.WithField("partition", envId.String()).
+						Warnf("%s could not complete for non-critical task, error: %s", event, errText)
+					return nil
+				}
 				return errors.New(response.Err().Error())
 			}
 			// FIXME: improve error handling ↑
